@@ -48,7 +48,9 @@ ASSUMPTIONS = [
     "log-coordinate and quadratic families)",
     "unitSphere's docstring only promises an 'approximate' count: r^2 <= rows <= (r+1)^2 with r=round(sqrt(n)) is "
     "demanded; fiboSphere must return exactly n rows",
-    "gap-closing with a gap 0<|b-a|<1e-150 is skipped: the direction is lost to float64 underflow of the squares",
+    "gap-closing with a gap 0<|b-a|<1e-150 is skipped: the direction is lost to float64 underflow of the squares; "
+    "closeArcGap with an arc gap 0<gap<2e-6 is skipped: below the library's NearZero resolution the direction of a "
+    "relative pose cannot be resolved by an implementation that goes through Log",
 ]
 SHARDS = {"quick": 4, "thorough": 16}
 
@@ -708,6 +710,10 @@ def c_arc_gap(case, ctx):
     gap_arc, threl = arc_oracle(Ta, Tb)
     if threl > MAXANG:
         ctx.skip(NEAR_PI_SKIP)
+    if 0.0 < g and gap_arc < 2e-6:
+        # an implementation that takes the direction from the relative pose (Log) cannot resolve it below the
+        # library's NearZero resolution; the six-vector implementation can, but the property does not choose
+        ctx.skip("arc gap below the library's NearZero resolution (2e-6): step direction not resolvable")
     tha, thb = ang(a[3:]), ang(b[3:])
     ctx.label("origin " + ("unrotated" if tha == 0 else "rotated"))
     r = sut(fsr.closeArcGap, mk(a), mk(b), delta)
@@ -1038,18 +1044,18 @@ def c_angle_mod(case, ctx):
 # ------------------------------------------------------------------------------------------ clause table
 
 CLAUSES = [
-    Clause("mirror_reflects_local_z", c_mirror, mirror_cases(), 600, 32000),
-    Clause("interp_midpoint_geodesic", c_midpoint, pose_pairs(), 600, 32000),
-    Clause("look_at_points_z", c_lookat, lookat_cases(), 600, 32000),
-    Clause("plane_contains_points", c_plane, triples(), 600, 32000),
-    Clause("distance_is_metric", c_distance, distance_cases(), 600, 32000),
-    Clause("arc_distance_relative_pose", c_arc_distance, pose_pairs(), 600, 32000),
-    Clause("close_linear_gap_exact_step", c_linear_gap, gap_cases(), 600, 32000),
-    Clause("close_arc_gap_exact_step", c_arc_gap, gap_cases(), 600, 32000, region=arc_gap_region),
-    Clause("ik_path_even_spacing", c_ik_path, path_cases(), 400, 16000),
-    Clause("twist_to_goal_exponentiates", c_twist_to_goal, pose_pairs(), 600, 32000),
-    Clause("chain_jacobian_is_space_jacobian", c_chain_jacobian, chain_cases(), 600, 32000),
-    Clause("numerical_jacobian_is_analytic", c_numerical_jacobian, numjac_cases(), 400, 16000),
+    Clause("mirror_reflects_local_z", c_mirror, mirror_cases(), 600, 16000),
+    Clause("interp_midpoint_geodesic", c_midpoint, pose_pairs(), 600, 16000),
+    Clause("look_at_points_z", c_lookat, lookat_cases(), 600, 16000),
+    Clause("plane_contains_points", c_plane, triples(), 600, 16000),
+    Clause("distance_is_metric", c_distance, distance_cases(), 600, 16000),
+    Clause("arc_distance_relative_pose", c_arc_distance, pose_pairs(), 600, 16000),
+    Clause("close_linear_gap_exact_step", c_linear_gap, gap_cases(), 600, 16000),
+    Clause("close_arc_gap_exact_step", c_arc_gap, gap_cases(), 600, 16000, region=arc_gap_region),
+    Clause("ik_path_even_spacing", c_ik_path, path_cases(), 400, 8000),
+    Clause("twist_to_goal_exponentiates", c_twist_to_goal, pose_pairs(), 600, 16000),
+    Clause("chain_jacobian_is_space_jacobian", c_chain_jacobian, chain_cases(), 600, 16000),
+    Clause("numerical_jacobian_is_analytic", c_numerical_jacobian, numjac_cases(), 400, 8000),
     Clause("sphere_samplers_unit_rows", c_sphere, kind="enum", size=sphere_size, case_at=sphere_case_at),
-    Clause("angle_mod_multiple_of_2pi", c_angle_mod, angle_cases(), 1200, 64000),
+    Clause("angle_mod_multiple_of_2pi", c_angle_mod, angle_cases(), 1200, 32000),
 ]
